@@ -64,7 +64,7 @@ Example tiny_keep : exists f', asf_save tiny [a_title] cb_keep = Ok f' /\ zlen f
   exists s', asf_parse f' = Ok s' /\ asf_padding s' = 209.
 Proof.
   eexists. split; [vm_compute; reflexivity|]. split; [vm_compute; reflexivity|].
-  eexists. split; vm_compute; reflexivity.
+  eexists. split; [vm_compute; reflexivity|vm_compute; reflexivity].
 Qed.
 Example tiny_seven : exists f' s', asf_save tiny [a_title] (cb_const 7) = Ok f' /\ asf_parse f' = Ok s' /\ asf_padding s' = 7.
-Proof. do 2 eexists. split; [vm_compute; reflexivity|]. split; vm_compute; reflexivity. Qed.
+Proof. do 2 eexists. split; [vm_compute; reflexivity|]. split; [vm_compute; reflexivity|vm_compute; reflexivity]. Qed.
